@@ -30,6 +30,7 @@ from vlib import Run, log
 import c18_texts as T
 import c18_values as V
 import c18_progs as P
+import c18_dags as G
 
 PROP = "C18"
 TRUSTED = [
@@ -550,6 +551,62 @@ def violation_of_stringify(c):
     }
 
 
+def dag_stream(run, tools, n, dist, stats):
+    """values with sharing (the same instance reachable several times, at several depths; exotic key-less objects; wrappers) and
+    genuine cycles, built through the Rust API: the engine's text must equal (a) the text of the extracted model WITH identities
+    (DeepModel_C18.ser_id: store + stack discipline of SerializeJSONObject/Array) and (b) for acyclic values the text of the tree model
+    on the unfolded value (sharing is unobservable: theorem stringify_dag_eq_tree); a reachable cycle must throw TypeError."""
+    cases = []
+    for c in G.fixed_cases():
+        for hs, ms, st in (("-", "-", "space-none"), ("n%016x" % V.bits_of(1.0), "n1", "space-num")):
+            cases.append(dict(c, hspace=hs, mspace=ms, spacetag=st))
+    for _ in range(n):
+        c = G.gen_dag_case(run.rng)
+        hs, ms, st = V.gen_space(run.rng)
+        c["hspace"], c["mspace"], c["spacetag"] = hs, ms, st
+        cases.append(c)
+    bits = set()
+    for c in cases:
+        G.graph_doubles(c["graph"], bits)
+    tok = number_tokens(run, tools, bits, stats)
+    ilines = ["stringify %s %s" % (c["hspace"], G.harness_tokens(c["graph"])) for c in cases]
+    idlines = ["stringifyid %s %s" % (c["mspace"], G.model_id_tokens(c["graph"], tok)) for c in cases]
+    acyc = [k for k, c in enumerate(cases) if not c["cyclic"]]
+    trlines = ["stringify %s %s" % (cases[k]["mspace"], V.model_tokens(G.unfold(cases[k]["graph"]), tok)) for k in acyc]
+    io = tools.impl(ilines)
+    ido = tools.model(idlines)
+    tro = dict(zip(acyc, tools.model(trlines)))
+    out = []
+    for k, (c, i, m, il, ml) in enumerate(zip(cases, io, ido, ilines, idlines)):
+        impl, mid = canon_impl(i), m.rstrip()
+        for t in c["tags"]:
+            dist["tag:" + t] = dist.get("tag:" + t, 0) + 1
+        run.count(("dag", il))
+        if mid.startswith("model-") or mid.startswith("badinput"):
+            dist["dag:model-discarded"] = dist.get("dag:model-discarded", 0) + 1
+            continue
+        expect_cycle = "err TypeError" if c["cyclic"] else None
+        dist["dag:" + ("cycle" if c["cyclic"] else "undef" if mid == "undef" else "text")] = dist.get("dag:" + ("cycle" if c["cyclic"] else "undef" if mid == "undef" else "text"), 0) + 1
+        why = None
+        if expect_cycle is not None and mid != expect_cycle:
+            why = "model with identities does not throw on a generated cycle (model/generator inconsistency)"
+        elif k in tro and tro[k].rstrip() != mid:
+            why = "model with identities differs from the tree model on the unfolded value (contradicts stringify_dag_eq_tree: driver/generator inconsistency)"
+        elif impl != mid:
+            why = ("JSON.stringify of a value with shared instances differs from the model (sharing must be unobservable)" if not c["cyclic"]
+                   else "JSON.stringify of a cyclic value must throw TypeError")
+        if why:
+            out.append({"kind": "correspondence-broken", "class": None,
+                        "input": {"cmd": "stringify", "harness_line": il[:6000], "model_line": ml[:6000]},
+                        "obligation": why + "; engine text = DeepModel_C18.m_stringify_id (store, stack) = Json.v serialize of the unfolded tree",
+                        "model_output": mid[:1500], "tree_model_output": (tro.get(k) or "").rstrip()[:1500], "impl_output": impl[:1500],
+                        "tags": c["tags"], "cyclic": c["cyclic"],
+                        "how_to_rerun": "printf '%s\\n' | harness/target/debug/jsonops ; printf '%s\\n' | ocaml/C18/_build/c18model" % (il[:3000], ml[:3000])})
+    stats["dag_mismatches"] = len(out)
+    out.sort(key=lambda v: len(v["input"]["harness_line"]))
+    return out[:4]
+
+
 def gen_value_cases(run, n, maxdepth, dist):
     cases = []
     for _ in range(n):
@@ -670,16 +727,24 @@ def search_roundtrip(run, tools, n, maxdepth, stats, dist):
     cases = []
     while len(cases) < n:
         tags = set()
-        tree = V.gen_tree(run.rng, run.rng.choice([1, 2, 3, 5, maxdepth]), tags, [run.rng.choice([6, 25, 80])], surrogate_ok=run.rng.random() < 0.3)
+        if run.rng.random() < 0.25:
+            # a value with shared instances: parse(stringify(v)) must be the unfolded v (the dumper walks the DAG as a tree)
+            g = G.gen_dag_case(run.rng)
+            if g["cyclic"] or G.has_exotic(g["graph"]):
+                continue
+            tree, htok, tags = G.unfold(g["graph"]), G.harness_tokens(g["graph"]), set(g["tags"])
+        else:
+            tree = V.gen_tree(run.rng, run.rng.choice([1, 2, 3, 5, maxdepth]), tags, [run.rng.choice([6, 25, 80])], surrogate_ok=run.rng.random() < 0.3)
+            htok = V.harness_tokens(tree)
         if not json_representable(tree):
             continue
         hs, ms, st = V.gen_space(run.rng)
         if "nonws" in st:
             continue
-        cases.append({"tree": tree, "hspace": hs, "tags": sorted(tags | {st})})
-    rlines = ["roundtrip %s %s" % (c["hspace"], V.harness_tokens(c["tree"])) for c in cases]
+        cases.append({"tree": tree, "htok": htok, "hspace": hs, "tags": sorted(tags | {st})})
+    rlines = ["roundtrip %s %s" % (c["hspace"], c["htok"]) for c in cases]
     # the reference dump of v does not go through JSON: the value is built through the API and dumped directly
-    dlines = ["dumpval " + V.harness_tokens(c["tree"]) for c in cases]
+    dlines = ["dumpval " + c["htok"] for c in cases]
     ro = tools.impl(rlines)
     do = tools.impl(dlines)
     bad = []
@@ -836,6 +901,7 @@ def main():
         for c in sorted(smism, key=lambda c: len(c["iline"]))[:4]:      # the shortest disagreeing cases are the replays
             violations.append(violation_of_stringify(c))
         stats["stringify_mismatches"] = len(smism)
+        violations += dag_stream(run, tools, 300 if quick else 3000, dist, stats)
         # every produced text goes through the parse correspondence as well (= round trip on the engine, value given by the model)
         parse_cases += [t for t in texts if t["valid_gap"] or run.rng.random() < 0.3]
         pm = parse_stream(run, tools, parse_cases, "parse", dist)
@@ -860,7 +926,7 @@ def main():
     # ---- replacer / toJSON / reviver programs (Python reference from the model's text; node only withholds)
     t_prog = time.time()
     if have_model:
-        pv = P.run_programs(run, tools, 150 if quick else 1200, dist, stats, node_eval)
+        pv = P.run_programs(run, tools, 220 if quick else 1500, dist, stats, node_eval)
         violations += pv
         run.cov["programs"] = sum(v for k, v in dist.items() if k.startswith("prog:"))
     stats["programs_wall_s"] = round(time.time() - t_prog, 1)
